@@ -65,6 +65,7 @@ int __wrap_setsockopt(int a, int b, int c, const void *d, socklen_t e) { HIT("se
 ssize_t __real_send(int, const void *, size_t, int);
 ssize_t __wrap_send(int fd, const void *buf, size_t len, int flags)
 {
+	if (armed && at == -2 && len > 1) at = count;	/* "at the first send" */
 	if (armed && count == at && partial_sel >= 0 && len > 1) {
 		size_t n = (size_t)partial_sel % len;
 		if (n) { if (__real_send(fd, buf, n, flags) < 0) {} }
@@ -76,6 +77,7 @@ ssize_t __wrap_send(int fd, const void *buf, size_t len, int flags)
 ssize_t __real_sendmsg(int, const struct msghdr *, int);
 ssize_t __wrap_sendmsg(int fd, const struct msghdr *m, int flags)
 {
+	if (armed && at == -2 && m->msg_iovlen >= 1 && m->msg_iov[0].iov_len > 1) at = count;
 	if (armed && count == at && partial_sel >= 0 && m->msg_iovlen >= 1 && m->msg_iov[0].iov_len > 1) {
 		struct msghdr mm = *m; struct iovec iv = m->msg_iov[0];
 		iv.iov_len = (size_t)partial_sel % iv.iov_len; mm.msg_iov = &iv; mm.msg_iovlen = 1;
